@@ -399,5 +399,5 @@ def hyp_case(draw, budget):
 def parts(tier):
     return [
         Part("hyp-wl-runs", "hyp", check=check, strategy=lambda t: hyp_case(40000 if t == "quick" else 200000),
-             examples={"quick": 160, "thorough": 3200}, shards={"quick": 16, "thorough": 16}),
+             examples={"quick": 320, "thorough": 4800}, shards={"quick": 16, "thorough": 16}),
     ]
